@@ -835,7 +835,7 @@ pub mod unit {
                 assert(validator_rewards.proposer_rewards.map().contains_key(index) == pr0.contains_key(index));
                 assert(validator_rewards.proposer_rewards.map()[index] == pr0[index]);
             }
-        @before <<if total_rewards.is_zero()>> #1
+        @before <<if total_rewards>> #1
             proof {
                 assert(as_proposer.v() == prv(pr0, g[j5].idx));
                 assert(total_rewards.v() == reward_of(g[j5], pr0, rrate));
